@@ -454,16 +454,20 @@ func NamespaceResolutionOnEval(p *core.Program, r *core.Report, rule string) {
 			// the enclosing statement node for dominance: find the innermost call/assign containing ix
 			var target ast.Node
 			ast.Inspect(fd.Decl.Body, func(m ast.Node) bool {
+				// the innermost node at which the walker reports the path state
 				switch s := m.(type) {
-				case *ast.AssignStmt:
+				case *ast.AssignStmt, *ast.ReturnStmt, *ast.CallExpr, *ast.DeclStmt, *ast.RangeStmt:
 					if s.Pos() <= ix.Pos() && ix.End() <= s.End() {
+						if rs, isRange := s.(*ast.RangeStmt); isRange && !(rs.X.Pos() <= ix.Pos() && ix.End() <= rs.X.End()) {
+							return true // in the body, not the ranged expression
+						}
 						target = s
 					}
 				}
 				return true
 			})
 			if target == nil {
-				r.Add(rule, fd.Key()+": lookup of namespacesMap on the eval path", p.Pos(ix.Pos()), core.Undecided, "lookup is not inside an assignment")
+				r.Add(rule, fd.Key()+": lookup of namespacesMap on the eval path", p.Pos(ix.Pos()), core.Undecided, "lookup is not inside an assignment, return, call or declaration")
 				return true
 			}
 			dom, _, found := Dominated(fd, target, func(x ast.Node) bool {
